@@ -56,6 +56,7 @@ func main() {
 		{"GpkgWriterGen.v", genGpkgWriter},
 		{"TmsAddrGen.v", genTmsAddr},
 		{"PipeGen.v", genPipe},
+		{"PipeDataGen.v", genPipeData},
 		{"IndexTopGen.v", genIndexTop},
 		{"TmsJsonGen.v", genTmsJson},
 		{"SnapTopGen.v", genSnapTop},
